@@ -90,4 +90,7 @@ def prngConc (c : Case) : Verdict :=
   if c.output.nat "mismatches" = some 0 ∧ c.output.get "got" = c.output.get "want" then .ok tag
   else .propFail tag "concurrent-draws-are-not-a-partition-of-the-stream"
 
+/-- families served by this module (collected by the generated `DrvAll`). -/
+def families : List (String × (Case → Verdict)) := [("prng", prng), ("prng_conc", prngConc)]
+
 end Drv.C30
